@@ -415,6 +415,9 @@ func genScenario(r *vh.Rand, family string, thorough bool) *Case {
 		so.delPct = 10
 	case "origins":
 		origins = []string{"", "foo", "bar", "openconfig"}
+		so.delPct = 50
+		so.n += 12
+		so.vals.arms = []string{"int", "str", "bool", "uint"}
 	case "keys-element":
 		so.keyed = true
 		so.element = 40
@@ -496,14 +499,17 @@ func genScenario(r *vh.Rand, family string, thorough bool) *Case {
 	for _, s := range streams {
 		total += len(s)
 	}
-	subAt := 0
-	switch r.Intn(4) {
-	case 0:
+	// where the clients subscribe: most scenarios somewhere in the first half, so
+	// that both the snapshot and the streamed part carry updates and deletes;
+	// one family streams everything, one serves everything from the snapshot
+	subAt := total/5 + r.Intn(total/3+1)
+	switch family {
+	case "basic":
 		subAt = 0
-	case 1:
+	case "multi":
 		subAt = total
-	default:
-		subAt = r.Intn(total + 1)
+	case "deletes":
+		subAt = total / 10
 	}
 	c.Ops = interleave(r, streams, names, subAt)
 	// clients: the whole target for every streaming target; plus variety
